@@ -331,7 +331,7 @@ class CHECK(vlib.Check):
                 "sizes and counts below 2^32 (uint32 wrap-around is not modelled); allocation never fails",
                 "single thread (iterator registration is never refused)",
                 "traversal theorems: operations that may relink a surviving entry (MoveTo*, PutAt*, Sort*, Reposition, Put on an existing key of an "
-                "auto-sorting table, CopyFrom, copy construction) are admitted only when they leave the world unchanged; the harness oracle checks the "
+                "auto-sorting table, CopyFrom without clearing) are admitted only when they leave the world unchanged; the harness oracle checks the "
                 "semantic condition (relative order of surviving entries unchanged) on the implementation"]
     rule = ("operation scripts over 1-3 tables of one class (Hashtable / OrderedKeysHashtable / OrderedValuesHashtable <int,int>, default or "
             "colliding hash functor) and up to 5 HashtableIterators, from random.Random(seed); after EVERY operation the result, every "
